@@ -254,3 +254,46 @@ func c08ReceivedRawPath(w *World, r *Report) {
 		r.Undecided(ri, "no entry point builds a request URL with a RawPath")
 	}
 }
+
+// ---- C03.8: a configured methods list never becomes "any method" -----------------------------------------
+//
+// The method condition treats an empty list as "not configured" and lets every method pass. The
+// constructor must therefore hand out an empty list only for an empty configuration: a list that
+// the exclusions ("!GET") reduce to nothing would otherwise match everything - the opposite of what
+// was written.
+func c03MethodsNeverEmptied(w *World, r *Report, ctor *ssa.Function) {
+	ri := r.Rule("C03.8", 1, "the methods condition built from a non-empty configuration is never the empty (match everything) list")
+	if ctor == nil || ctor.Blocks == nil || len(ctor.Params) == 0 {
+		r.Undecided(ri, "the constructor of the methods condition was not found")
+		return
+	}
+	r.Analysed(w.FnName(ctor))
+	in := ctor.Params[0]
+	n := 0
+	for _, ret := range returnsOf(ctor) {
+		if len(ret.Results) != 2 {
+			continue
+		}
+		if !mayBeNilAt(w, ctor, ret.Results[1], ret.Block()) {
+			continue
+		}
+		n++
+		v := ret.Results[0]
+		emptyInput := func(f Fact) bool {
+			l, kd := lenFact(f)
+			return l != nil && kd == "empty" && (l == ssa.Value(in) || sameValue(l, in))
+		}
+		nonEmptyResult := func(f Fact) bool {
+			l, kd := lenFact(f)
+			if l == nil || kd != "nonempty" {
+				return false
+			}
+			return l == v || sameValue(l, v) || sameValue(stripConv(l), stripConv(v))
+		}
+		ok := onlyVia(ctor, ret.Block(), emptyInput) || onlyVia(ctor, ret.Block(), nonEmptyResult)
+		r.Ob(ri, fmt.Sprintf("%s|%s|not-emptied", w.FnName(ctor), retKey(w, ctor, ret)), ret.Pos(), ok, "the methods condition can be returned empty for a non-empty configuration (e.g. [\"!GET\"], or ALL with every method excluded): an empty list lets every method pass")
+	}
+	if n == 0 {
+		r.Undecided(ri, "the constructor of the methods condition never succeeds")
+	}
+}
